@@ -71,6 +71,15 @@ type stageRig struct {
 	snapDir  string
 
 	base int64 // time base of the case
+
+	pause *pausePoint // one-shot pause point armed by a race operation
+}
+
+type pausePoint struct {
+	label  string
+	key    string // first hook argument must equal this ("" = any)
+	hit    chan struct{}
+	resume chan struct{}
 }
 
 var activeRig *stageRig
@@ -167,6 +176,15 @@ func (r *stageRig) onHook(label string, kv ...any) {
 	first := ""
 	if len(kv) > 0 {
 		first, _ = kv[0].(string)
+	}
+	r.mu.Lock()
+	if p := r.pause; p != nil && p.label == label && (p.key == "" || p.key == first) {
+		r.pause = nil
+		r.mu.Unlock()
+		close(p.hit)
+		<-p.resume
+	} else {
+		r.mu.Unlock()
 	}
 	if label == "stage.recv.opened" {
 		r.signalOpened(first)
@@ -526,6 +544,7 @@ type pendingRecv struct {
 }
 
 type stageExec struct {
+	emu       sync.Mutex
 	rig       *stageRig
 	err       error
 	md5Of     map[string]string // model hash token -> md5 hex
@@ -540,11 +559,12 @@ type stageExec struct {
 	delivered map[string][]byte          // target -> body seen in final dir (oracle)
 	versions  map[string]map[string]bool // name -> set of model hash tokens announced for it
 	corrupted map[string]bool
-	prevOf    map[string]string // name|hashtoken -> predecessor announced last for that version
-	gaveUp    bool              // cleanwaiting ran: the order may have been given up for cycles
-	crashes   int               // crash / cut operations in this case
-	confirmed map[string]bool   // names ever answered passed / waiting
-	consumed  map[string]bool   // targets the harness consumed from the final directory
+	acked     map[string][][2]int64 // name|md5 -> acknowledged ranges
+	prevOf    map[string]string     // name|hashtoken -> predecessor announced last for that version
+	gaveUp    bool                  // cleanwaiting ran: the order may have been given up for cycles
+	crashes   int                   // crash / cut operations in this case
+	confirmed map[string]bool       // names ever answered passed / waiting
+	consumed  map[string]bool       // targets the harness consumed from the final directory
 }
 
 func newStageExec() *stageExec {
@@ -552,7 +572,7 @@ func newStageExec() *stageExec {
 	return &stageExec{rig: rig, err: err, md5Of: map[string]string{}, tokOf: map[string]string{},
 		names: map[string]bool{}, targets: map[string]bool{}, handles: map[string]*pendingRecv{},
 		kinds: map[string]bool{}, delivered: map[string][]byte{}, versions: map[string]map[string]bool{}, corrupted: map[string]bool{},
-		prevOf: map[string]string{}, confirmed: map[string]bool{}, consumed: map[string]bool{}}
+		acked: map[string][][2]int64{}, prevOf: map[string]string{}, confirmed: map[string]bool{}, consumed: map[string]bool{}}
 }
 
 func parseBodyTok(s string) ([]byte, bool) {
@@ -587,6 +607,8 @@ func md5hex(b []byte) string { return fmt.Sprintf("%x", md5.Sum(b)) }
 
 // realHash maps a model hash token to the MD5 the implementation sees.
 func (e *stageExec) realHash(tok string) string {
+	e.emu.Lock()
+	defer e.emu.Unlock()
 	if h, ok := e.md5Of[tok]; ok {
 		return h
 	}
@@ -656,18 +678,20 @@ func (e *stageExec) partial(n, renamed, prev, size, hash, beg, end string) (*sts
 		return nil, false
 	}
 	name := unesc(n)
-	e.names[name] = true
 	t := unesc(renamed)
 	if t == "" {
 		t = name
 	}
-	e.targets[t] = true
 	tok := unesc(hash)
+	e.emu.Lock()
+	e.names[name] = true
+	e.targets[t] = true
 	if e.versions[name] == nil {
 		e.versions[name] = map[string]bool{}
 	}
 	e.versions[name][tok] = true
 	e.prevOf[name+"|"+tok] = unesc(prev)
+	e.emu.Unlock()
 	return &sts.Partial{Name: name, Renamed: unesc(renamed), Prev: unesc(prev), Size: sz,
 		Hash: e.realHash(tok), Source: "verif", Time: marshal.NanoTime{Time: time.Unix(e.rig.base, 0)},
 		Parts: []*sts.ByteRange{{Beg: b, End: en}}}, true
@@ -739,7 +763,18 @@ func (e *stageExec) do1(op []string) string {
 		}
 		name := unesc(op[1])
 		e.names[name] = true
+		before, _ := os.Stat(filepath.Join(r.root, name) + ".cmp")
 		r.st.Prepare([]sts.Binned{&binnedPart{name: name, size: sz}})
+		if after, _ := os.Stat(filepath.Join(r.root, name) + ".cmp"); before != nil && after == nil {
+			// a stale companion was discarded together with the (re)created partial
+			e.emu.Lock()
+			for kk := range e.acked {
+				if strings.HasPrefix(kk, name+"|") {
+					delete(e.acked, kk)
+				}
+			}
+			e.emu.Unlock()
+		}
 		return "ok"
 	case len(op) == 10 && op[0] == "recv":
 		p, ok := e.partial(op[1], op[2], op[3], op[4], op[5], op[6], op[7])
@@ -757,7 +792,10 @@ func (e *stageExec) do1(op []string) string {
 			}
 			return "err " + esc(err.Error())
 		}
+		e.noteAck(p)
 		return "ok"
+	case len(op) >= 4 && (op[0] == "racerecv" || op[0] == "raceproc" || op[0] == "racefin"):
+		return e.race(op)
 	case len(op) == 9 && op[0] == "ropen":
 		// start a Receive whose reader blocks; wait until it has opened the partial
 		p, ok := e.partial(op[2], op[3], op[4], op[5], op[6], op[7], op[8])
@@ -1027,6 +1065,7 @@ func (e *stageExec) do1(op []string) string {
 		return "partials{" + strings.Join(items, ";") + "}"
 	case len(op) == 1 && op[0] == "observe":
 		e.scanFinal()
+		e.oracleAcks()
 		e.oracleOrder()
 		e.oracleOnce()
 		e.oracleNotLost()
@@ -1235,13 +1274,19 @@ func (e *stageExec) oracleOrder() {
 // oracleOnce: C05 — a version is logged once; only a crash between logging and moving may
 // repeat the record.
 func (e *stageExec) oracleOnce() {
-	cnt := map[string]int{}
+	// per name, in log order: the same version logged again without another version of
+	// that name in between (a version that came back after a different one is a new delivery)
+	last := map[string]string{}
+	rep := map[string]int{}
 	for _, l := range e.readLog() {
-		cnt[l.name+"|"+l.hash]++
+		if last[l.name] == l.hash {
+			rep[l.name]++
+		}
+		last[l.name] = l.hash
 	}
-	for k, c := range cnt {
-		if c > 1+e.crashes {
-			e.fails = append(e.fails, fmt.Sprintf("logged-twice: %d receive-log records for %s with %d crash(es) in the history", c, k[:strings.Index(k, "|")], e.crashes))
+	for name, c := range rep {
+		if c > e.crashes {
+			e.fails = append(e.fails, fmt.Sprintf("logged-twice: %d repeated receive-log record(s) for the same version of %s with %d crash(es) in the history", c, name, e.crashes))
 		}
 	}
 }
@@ -1298,6 +1343,24 @@ func (e *stageExec) oracleClean(before, after map[string][]byte) {
 			if _, ok := after["stage/"+name+".part"]; ok {
 				e.fails = append(e.fails, fmt.Sprintf("clean-removed-live-companion: companion of %s removed while its partial stays", name))
 			}
+			// the companion is the only durable record (hash, predecessor) of a complete file
+			// that still waits in staging for validation or for its predecessor
+			hash := ""
+			var c sts.Partial
+			if json.Unmarshal(before[p], &c) == nil {
+				hash = c.Hash
+			}
+			logged := false
+			for _, l := range e.readLog() {
+				if l.name == name && l.hash == hash {
+					logged = true
+				}
+			}
+			_, full := after["stage/"+name+".full"]
+			_, wait := after["stage/"+name+".wait"]
+			if !logged && (full || wait) {
+				e.fails = append(e.fails, fmt.Sprintf("clean-removed-companion-of-staged: companion of %s (hash %s) removed while its complete copy is still staged and that version is not logged", name, e.tokOfHash(hash)))
+			}
 		default:
 			e.fails = append(e.fails, "clean-removed-other: cleaning removed "+p)
 		}
@@ -1307,6 +1370,138 @@ func (e *stageExec) oracleClean(before, after map[string][]byte) {
 			e.fails = append(e.fails, "clean-changed: cleaning changed "+p)
 		}
 	}
+}
+
+// noteAck remembers that the reception of a part was acknowledged (Receive returned nil).
+func (e *stageExec) noteAck(p *sts.Partial) {
+	e.emu.Lock()
+	defer e.emu.Unlock()
+	k := p.Name + "|" + p.Hash
+	if _, err := os.Stat(filepath.Join(e.rig.root, p.Name) + ".part"); err != nil {
+		// this part completed the file (or was dropped as a duplicate of a known version):
+		// the partial and the obligations about it are gone
+		for kk := range e.acked {
+			if strings.HasPrefix(kk, p.Name+"|") {
+				delete(e.acked, kk)
+			}
+		}
+		return
+	}
+	e.acked[k] = append(e.acked[k], [2]int64{p.Parts[0].Beg, p.Parts[0].End})
+}
+
+// oracleAcks: C09 — every acknowledged part stays on record until the file is complete or a
+// different version replaces the companion.
+func (e *stageExec) oracleAcks() {
+	r := e.rig
+	if e.crashes > 0 {
+		return // a crash may lose the acknowledgement that was in flight; covered by the crash images
+	}
+	for k, ranges := range e.acked {
+		i := strings.LastIndex(k, "|")
+		name, hash := k[:i], k[i+1:]
+		b, err := os.ReadFile(filepath.Join(r.root, name) + ".cmp")
+		if err != nil {
+			continue
+		}
+		var c sts.Partial
+		if json.Unmarshal(b, &c) != nil || c.Hash != hash {
+			continue
+		}
+		if _, err := os.Stat(filepath.Join(r.root, name) + ".part"); err != nil {
+			continue // completed (or cleaned): no longer a partial
+		}
+		for _, rg := range ranges {
+			for x := rg[0]; x < rg[1]; x++ {
+				if !coveredBy(c.Parts, x) {
+					e.fails = append(e.fails, fmt.Sprintf("ack-lost: part %d:%d of %s was acknowledged but byte %d is no longer on record (%s)", rg[0], rg[1], name, x, fmtParts(c.Parts)))
+					break
+				}
+			}
+		}
+	}
+}
+
+// race: the first operation is held at a pause point inside its locked region while a second
+// reception starts; then the first is released and both finish.
+func (e *stageExec) race(op []string) string {
+	r := e.rig
+	sep := -1
+	for i, t := range op {
+		if t == ";;" {
+			sep = i
+		}
+	}
+	if sep < 0 || len(op)-sep-1 != 9 {
+		return "bad-op"
+	}
+	second := append([]string{"recv"}, op[sep+1:]...)
+	var first []string
+	pp := &pausePoint{hit: make(chan struct{}), resume: make(chan struct{})}
+	switch op[0] {
+	case "racerecv":
+		if sep != 10 {
+			return "bad-op"
+		}
+		first = append([]string{"recv"}, op[1:sep]...)
+		pp.label, pp.key = "stage.recv.locked", filepath.Join(r.root, unesc(op[1]))
+	case "raceproc":
+		if sep != 3 {
+			return "bad-op"
+		}
+		first = []string{"process", op[1], op[2]}
+		pp.label, pp.key = "stage.process.hashed", unesc(op[1])
+	case "racefin":
+		if sep != 3 {
+			return "bad-op"
+		}
+		first = []string{"finh", op[1], op[2]}
+		pp.label, pp.key = "stage.d.logged", filepath.Join(r.root, unesc(op[1]))
+	}
+	r.mu.Lock()
+	r.pause = pp
+	r.mu.Unlock()
+	a1 := make(chan string, 1)
+	go func() { a1 <- e.do1(first) }()
+	var ans1 string
+	held := false
+	select {
+	case <-pp.hit:
+		held = true
+	case ans1 = <-a1:
+		// the first operation finished without reaching the pause point
+	case <-time.After(15 * time.Second):
+		return "harness-timeout"
+	}
+	r.mu.Lock()
+	r.pause = nil
+	r.mu.Unlock()
+	a2 := make(chan string, 1)
+	go func() { a2 <- e.do1(second) }()
+	var ans2 string
+	got2 := false
+	select {
+	case ans2 = <-a2:
+		got2 = true
+	case <-time.After(150 * time.Millisecond):
+		// the second operation waits for the lock held by the first
+	}
+	if held {
+		close(pp.resume)
+		select {
+		case ans1 = <-a1:
+		case <-time.After(30 * time.Second):
+			return "harness-timeout"
+		}
+	}
+	if !got2 {
+		select {
+		case ans2 = <-a2:
+		case <-time.After(30 * time.Second):
+			return "harness-timeout"
+		}
+	}
+	return ans1 + " ;; " + ans2
 }
 
 func (e *stageExec) Oracle() []string { f := e.fails; e.fails = nil; return f }
